@@ -16,7 +16,6 @@ Nothing in here sleeps, selects, or starts a thread.
 from __future__ import annotations
 
 import asyncio
-import gc
 import heapq
 import ipaddress
 import socket
@@ -41,6 +40,7 @@ class VLoop(asyncio.BaseEventLoop):
         self.gai_hold = 0  # number of upcoming getaddrinfo answers to hold back
         self.gai_pending = []  # held-back (future, result)
         self.set_exception_handler(self._on_exception)
+        self.created = []  # every task created on this loop (strong refs, for the unretrieved-exception check)
         self._installed = False
 
     # -- clock ---------------------------------------------------------------------
@@ -68,6 +68,11 @@ class VLoop(asyncio.BaseEventLoop):
             (self._vtime, context.get("message"), type(exc).__name__ if exc else None,
              str(exc) if exc else None)
         )
+
+    def create_task(self, coro, **kw):
+        t = super().create_task(coro, **kw)
+        self.created.append(t)
+        return t
 
     def call_at(self, when, callback, *args, context=None):
         h = super().call_at(when, callback, *args, context=context)
@@ -120,9 +125,12 @@ class VLoop(asyncio.BaseEventLoop):
     def dispose(self):
         """drop everything that is still pending without running it"""
         try:
-            for t in list(asyncio.all_tasks(self)):
-                # silence "Task was destroyed but it is pending"
+            for t in self.created:
+                # silence "Task was destroyed but it is pending" / late "never retrieved" reports
                 t._log_destroy_pending = False
+                if t.done():
+                    t._log_traceback = False
+            self.created = []
             self._ready.clear()
             self._scheduled.clear()
         finally:
@@ -216,13 +224,20 @@ class VLoop(asyncio.BaseEventLoop):
         return n
 
     def collect_exceptions(self):
-        """GC-timed 'exception was never retrieved' entries become deterministic"""
-        gc.collect()
-        return list(self.exc_log)
+        """loop exception-handler entries plus 'exception was never retrieved' candidates, found
+        deterministically (no reliance on GC timing): finished tasks whose exception nobody read"""
+        out = list(self.exc_log)
+        for t in self.created:
+            if t.done() and not t.cancelled() and t._log_traceback:
+                exc = t._exception
+                out.append((self._vtime, "Task exception was never retrieved", type(exc).__name__, str(exc)))
+        return out
 
 
 class FakeTransport:
     """records every sendto with virtual time and loop iteration"""
+
+    _canon_skip_ = ("sent", "sink")
 
     def __init__(self, loop: VLoop, sockname=("192.0.2.1", 30490), sink=None):
         self.loop = loop
